@@ -1,5 +1,10 @@
 """C18 - explicit removal and vanish remove exactly their targets."""
+import random
+
+import common as C
 from dbengine import DbEngine
+from dbgen import HistGen, AUTHORS
+from engine import Verdict
 
 
 class Engine(DbEngine):
@@ -9,9 +14,34 @@ class Engine(DbEngine):
     aspects = {'addrs.find', 'stats.del', 'vanish', 'addrs.asof', 'store.result', 'stats.main', 'ids.del', 'ids.hash', 'remove', 'extra', 'ids.has'}
     quick = (200, 35)
     thorough = (5000, 80)
-    rule = 'removal/vanish-heavy histories: targets present / absent / already removed; authors with 0..many events across all kind classes; gift wraps (kind 1059) naming the author in the first p tag, a second p tag, as a non-first value, in upper-case hex, and kind-1 look-alikes; resubmission after removal; ephemeral kinds 20000/29999. oracle: exactly the targets disappear (ids/markers/extra equal the abstract store), removed events are accepted again, ephemeral events are never retrievable. non-trivial = history with >= 2 stores'
+    rule = 'removal/vanish-heavy histories: targets present / absent / already removed; authors with 0..many events across all kind classes; gift wraps (kind 1059) naming the author in the first p tag, a second p tag, as a non-first value, in upper-case hex, and kind-1 look-alikes; resubmission after removal; ephemeral kinds 20000/29999. oracle: exactly the targets disappear (ids/markers/extra equal the abstract store), removed events are accepted again, ephemeral events are never retrievable. non-trivial = history with >= 2 stores. Plus the arrival order that only exists with two callers: an event is stored by one thread while another removes it (by id, or by vanishing its author) under the schedule controller; when both have returned the event is resubmitted: whatever the interleaving it must then be retrievable and unmarked (removal leaves nothing behind that could refuse it)'
     trusted = DbEngine.db_trusted
     assumptions = []
+    races = {'quick': 120, 'thorough': 2500}
+
+    def make_race(self, rng):
+        sub = random.Random(rng.getrandbits(64))
+        g = HistGen(sub, {'new': 3, 'addr': 2}, sub.choice([0, 1, 3])).run()
+        pk = bytes([0xC8]) * 32           # an author the setup history never uses
+        ev = g.new_event(kind=sub.choice([1, 1, 7, 30023, 10000]), pk=pk, created=300, tags=[[b'd', b'r']] if sub.random() < 0.3 else [])
+        ev['content'] = b'racer'
+        ev['id'] = __import__('dbgen').fake_id(ev)
+        setup = [g.render_op(op) for op in g.ops]
+        rm = 'remove ' + C.tb(ev['id']) if sub.random() < 0.6 else 'vanish ' + C.tb(pk)
+        progs = [['store ' + C.t_event(ev)], [rm] * sub.choice([1, 1, 2])]
+        sub.shuffle(progs)
+        line = self.race_line(sub, g, setup, progs, [ev['id']], after=['store ' + C.t_event(ev)])
+        return ('removal-race:' + rm.split(' ')[0], line), {}
+
+    def judge_race(self, meta, out):
+        resp, flags = self.race_parse(out)
+        if not flags:
+            return Verdict(corr_ok=False, cls='unparsable-output', detail=out[:120], outcome='unparsable')
+        if not flags[0].startswith('10'):
+            return Verdict(oracle_ok=False, cls='removed-event-not-accepted-again',
+                           detail='after a store racing with a removal, the event was resubmitted; it now observes as has/deleted = %s (must be retrievable and unmarked: removal leaves nothing that could refuse it)' % flags[0][:2],
+                           outcome='refused')
+        return Verdict(outcome='race-ok', nontrivial=True)
 
     def generate(self, rng, tier):
         import random
